@@ -32,11 +32,21 @@ func NewLens[S, A any](t hseq.Type[S]) Lens[S, A] {
 	fv := reflect.TypeOf(new(A)).Elem()
 
 	if ft.String() == fv.String() && ft.AssignableTo(fv) {
+		assertContainer[S]()
 		return &lens[S, A]{t}
 	}
 
 	cat := reflect.TypeOf(new(S)).Elem()
 	panic(fmt.Errorf("invalid type: Lens[%s, %s] not compatible with %s", cat.Name(), ft.Name(), fv.Name()))
+}
+
+// assertContainer panics unless S is a struct type. The optics address a field
+// as an offset from *S, which is meaningless when S itself is a pointer.
+func assertContainer[S any]() {
+	cat := reflect.TypeOf(new(S)).Elem()
+	if cat.Kind() != reflect.Struct {
+		panic(fmt.Errorf("invalid type: %s is not a struct, optics require the struct type itself as container (not a pointer to it)", cat))
+	}
 }
 
 type lens[S, A any] struct{ hseq.Type[S] }
